@@ -100,7 +100,7 @@ def _val(v):
 
 
 _SPAN_GET = {"color": SP.Color, "backgroundColor": SP.BackgroundColor, "fontWeight": SP.FontWeight, "fontStyle": SP.FontStyle,
-             "textDecoration": SP.TextDecoration, "visibility": SP.Visibility, "display": SP.Display}
+             "textDecoration": SP.TextDecoration, "visibility": SP.Visibility, "display": SP.Display, "opacity": SP.Opacity}
 _ROLE = {m.Rb: "base", m.Rt: "text", m.Rp: "delimiter"}
 
 
@@ -538,11 +538,12 @@ COMPARED = {
   "textDecoration": ["none", "underline", "noUnderline", "lineThrough", "underline lineThrough", "noUnderline overline",
                      "underline noLineThrough noOverline", "overline", "noLineThrough"],
   "textAlign": ["left", "center", "right", "start", "end"], "display": ["auto", "none"], "visibility": ["visible", "hidden"],
+  "opacity": ["0", "0.5", "1", "0"],
 }
 FULL_TD = ["none", "underline noLineThrough noOverline", "noUnderline lineThrough overline"]
 OTHER = {
   (TTS, "fontSize"): ["100%", "1.5em", "2c", "80%"], (TTS, "fontFamily"): ["default", "monospaceSerif, Arial", "'Times New Roman', serif"],
-  (TTS, "lineHeight"): ["normal", "125%"], (TTS, "opacity"): ["0.5", "1"], (TTS, "wrapOption"): ["wrap", "noWrap"],
+  (TTS, "lineHeight"): ["normal", "125%"], (TTS, "wrapOption"): ["wrap", "noWrap"],
   (TTS, "direction"): ["ltr", "rtl"], (TTS, "unicodeBidi"): ["normal", "embed", "bidiOverride"], (TTS, "textOutline"): ["none", "red 5%", "10%"],
   (TTS, "textShadow"): ["none", "1px 1px", "1px 1px 2px red", "1% 1% blue"], (TTS, "textEmphasis"): ["none", "auto", "filled circle before", "open sesame red"],
   (TTS, "textCombine"): ["none", "all"], (TTS, "rubyAlign"): ["center", "spaceAround"], (TTS, "rubyPosition"): ["before", "after", "outside"],
@@ -996,6 +997,17 @@ def handmade_docs():
   body = mk("body", {q(TTS, "textDecoration"): "underline"}, [mk("div", {q(TTS, "textDecoration"): "overline noUnderline"}, [
     P({q(TTS, "textDecoration"): "lineThrough"}, ["A", mk("span", {q(TTS, "textDecoration"): "none"}, ["B"]),
                                                mk("span", {q(TTS, "backgroundColor"): "red", q(TTS, "color"): "white"}, ["C", mk("span", {}, ["D"])])])])])
+  docs.append(_serialise(tt(head, body)))
+  # values that are `false` for a careless truth test (0, 0.0) in every layer of the style cascade: a later reference beats an earlier one,
+  # nested beats referential, inline beats nested, an animation beats them all -- also when the winning value is 0
+  head = [mk("style", {q(XML, "id"): "sA", q(TTS, "opacity"): "1"}), mk("style", {q(XML, "id"): "sB", q(TTS, "opacity"): "0"}),
+          mk("style", {q(XML, "id"): "sC", "style": "sA sB"}), mk("style", {q(XML, "id"): "sD", "style": "sB sA"}),
+          mk("initial", {q(TTS, "opacity"): "0.5"})]
+  body = mk("body", {}, [mk("div", {}, [P({"begin": "0s", "end": "4s"}, [
+    mk("span", {"style": "sA sB"}, ["later-zero"]), mk("span", {"style": "sB sA"}, ["later-one"]), mk("span", {"style": "sC"}, ["chained-zero"]),
+    mk("span", {"style": "sD"}, ["chained-one"]), mk("span", {"style": "sA", q(TTS, "opacity"): "0"}, ["inline-zero"]),
+    mk("span", {"style": "sA"}, [mk("set", {"begin": "1s", "end": "2s", q(TTS, "opacity"): "0"}), "animated-zero"]),
+    mk("span", {q(TTS, "opacity"): "0"}, [mk("set", {"begin": "1s", "end": "2s", q(TTS, "opacity"): "1"}), "animated-one"]), mk("span", {}, ["initial"])])])])
   docs.append(_serialise(tt(head, body)))
   # xml:space / xml:lang inheritance, anonymous spans, br
   body = mk("body", {q(XML, "lang"): "fr"}, [mk("div", {q(XML, "space"): "preserve"}, [
